@@ -1,6 +1,6 @@
 (* C20 property theorems: statements only, each closed by [exact]. *)
 From Coq Require Import NArith ZArith List Bool.
-From LV Require Import Lib.Bytes Lib.Decimal Model.C20 Proofs.C20.
+From LV Require Import Lib.Bytes Lib.Decimal Model.C20 Proofs.C20 Model.C20_Callers Proofs.C20_Callers.
 Import ListNotations.
 Local Open Scope N_scope.
 
@@ -29,8 +29,31 @@ Theorem C20_accepts_grammar : forall s whole frac, in_grammar s whole frac -> ex
 Proof. exact parse_complete. Qed.
 Print Assumptions C20_accepts_grammar.
 
+(* Callers.  storage.calculate_effective_amount (the effective amount of a stored claim: amount plus supports): when it
+   answers, every string was accepted by the strict parser and the answer is the exact decimal of the SUM of their values
+   (mantissa m, k fraction digits, 1<=k<=8, m/10^k = sum/10^8); it refuses exactly when one of the strings is refused --
+   with or without supports, nothing is passed through unparsed. *)
+Theorem C20_effective_exact : forall amount supports out,
+  effective amount supports = Some out ->
+  exists ns m k, Forall2 (fun s n => parse s = Some n) (amount :: supports) ns /\
+    dec_exact out = Some (m, k) /\ (m * 10 ^ 8 = Z.of_N (nsum ns) * 10 ^ Z.of_N k)%Z /\ 1 <= k <= 8.
+Proof. exact effective_exact. Qed.
+Print Assumptions C20_effective_exact.
+
+Theorem C20_effective_rejects : forall amount supports,
+  effective amount supports = None <-> exists s, In s (amount :: supports) /\ parse s = None.
+Proof. exact effective_rejects. Qed.
+Print Assumptions C20_effective_rejects.
+
+Theorem C20_effective_no_supports : forall n, n < 10 ^ 18 ->
+  effective (format (Z.of_N n)) [] = Some (format (Z.of_N n)).
+Proof. exact effective_no_supports. Qed.
+Print Assumptions C20_effective_no_supports.
+
 (* non-vacuity: concrete instances *)
 Example C20_ex1 : parse (format 9007199254740993%Z) = Some 9007199254740993.
 Proof. vm_compute. reflexivity. Qed.
 Example C20_ex2 : dec_exact (format (-1234500000)%Z) = Some ((-12345)%Z, 3).
+Proof. vm_compute. reflexivity. Qed.
+Example C20_ex3 : effective (format 150000000%Z) [format 25000000%Z; format 1%Z] = Some (format 175000001%Z).
 Proof. vm_compute. reflexivity. Qed.
